@@ -299,6 +299,22 @@ def _check_main(ctx):
             ctx.violation("sess-unassigned-read:" + text, text, "status 1 (y was never assigned)" + (", %s not bound" % names_unbound if names_unbound else ""),
                           "status %s %s out=%r bound afterwards: %s" % (r["status"], r["escaped"] or "", r["out"].strip()[:60], left),
                           "fresh EvalEnvironment; execute(%r)" % text)
+    # ---- … and WHATEVER the name is: the name of a registered function (with or without parameters: now, today, rand, quit, sin …)
+    # or of a unit, read as a bare variable in a session that never assigned it, is an unassigned name, not a call
+    import re as _re
+    fnames = sorted(n for n in list(R.functions.FUNCTIONS.keys()) if _re.match(r"^[A-Za-z_][A-Za-z_0-9]*$", n) and n not in ("pi", "e", "true", "false"))
+    for nm in fnames + ["m", "kg", "usd", "metre"]:
+        for text, unb in [(nm, []), ("v_ = " + nm, ["v_"]), ("1 + " + nm, []), ("a_ = 5; b_ = %s; a_" % nm, ["b_"])]:
+            if text in ("in", "to") or nm in ("in", "to"):
+                continue
+            env = R.new_env()
+            r = R.execute(text, env=env)
+            ctx.count("unassigned-read:" + text, bucket="unassigned reads of function / unit names")
+            left = [x for x in unb if core.env_bound(env, x)]
+            if r["escaped"] or r["status"] != 1 or left:
+                ctx.violation("sess-unassigned-read:" + text, text, "status 1 (%s was never assigned)" % nm + (", %s not bound" % unb if unb else ""),
+                              "status %s %s out=%r bound afterwards: %s" % (r["status"], r["escaped"] or "", r["out"].strip()[:60], left),
+                              "fresh EvalEnvironment; execute(%r)" % text)
     # ---- only an assignment changes a binding: expression statements (incl. comprehensions whose generator
     #      variables shadow session names, failing ones too) leave the whole table as it was
     exprs = ["{x : x in 1..3}", "{x*y : x in 1..3, y in 4..6}", "sum({z : z in {1,2}})", "{x : x in 1..3, x/0}", "{true : true in 1..2}",
